@@ -47,7 +47,7 @@ class LabelCodec:
         k = (type(pl).__name__, pl)
         if k in self.to_spec:
             return self.to_spec[k]
-        if isinstance(pl, str) and _ANC.match(pl):
+        if isinstance(pl, str) and (_ANC.match(pl) or pl == "__poked__"):
             return pl
         if isinstance(pl, int) and not isinstance(pl, bool):
             return pl
@@ -114,8 +114,9 @@ def project(obj, codec):
         name = "" if name is None else repr(name)
     except Exception:
         name = "?"
+    poked = "__poked__" in repr([ts, vs, mp, rv, cons])
     return {"kind": kind, "ts": ts, "vars": vs, "nvars": nv, "deg": deg, "map": mp, "rev": rv, "anc": anc, "ncons": ncons,
-            "cons": cons, "name": name}
+            "cons": cons, "name": name, "poked": poked}
 
 
 def anc_indices(obj):
@@ -137,6 +138,7 @@ class ModelReplayer:
         self.codec = codec
         self.slots = {i + 1: self.cls[k]() for i, k in enumerate(kinds)}
         self.slots[1].name = "n1"
+        self.slots[2].name = 0               # a falsy name that is not None must survive an info round trip too
         self.kinds = list(kinds)
 
     def key(self, k):
@@ -214,7 +216,12 @@ class ModelReplayer:
                         table = {0: ("eq", {(x,): 1, (): -1}), 1: ("le", {(x,): 2, (): -1}), 2: ("le", {(x,): 4, (): -3}),
                                  3: ("ge", {(x,): -2, (): 1}), 4: ("lt", {(x,): 2, (): -2}), 5: ("ne", {(x,): 2, (): -1})}
                     rel, P = table[v]
-                    getattr(obj, "add_constraint_%s_zero" % rel)(P, lam=2)
+                    import qubovert as _qv
+                    form = (len(self.slots[1]) + len(self.slots[2]) + v) % 3        # deterministic variety: dict / PUBO|PUSO / PCBO|PCSO
+                    arg = P if form == 0 else ((_qv.PUSO if spin else _qv.PUBO)(P) if form == 1 else (_qv.PCSO if spin else _qv.PCBO)(P))
+                    getattr(obj, "add_constraint_%s_zero" % rel)(arg, lam=2)
+                    # the recorded constraint must not alias the argument: mutate the argument afterwards
+                    arg[("__poked__",)] = 3
                     new_anc = sorted(anc_indices(obj) - before_anc)
                 elif name == "bin":
                     s_, nm_, j_, lit_, d_, refl_ = a
@@ -251,6 +258,17 @@ class ModelReplayer:
                     i1 = get_info(sl[a[0]])
                     new = create_from_info(i1)
                     info_equal = bool(get_info(new) == get_info(sl[a[0]]))
+                    # the info dictionary must not be aliased by the model created from it (nor by the source model)
+                    try:
+                        if isinstance(i1.get("mapping"), dict):
+                            i1["mapping"]["__poked__"] = 99
+                        i1["terms"][("__poked__",)] = 7
+                        for ps in (i1.get("constraints") or {}).values():
+                            for p in ps:
+                                p[("__poked__",)] = 5
+                            ps.append({("__poked__",): 1})
+                    except Exception:
+                        pass
                     sl[a[1]] = new
                 elif name == "toenum":
                     obj = sl[a[0]]
@@ -313,6 +331,10 @@ def _poke(self, obj):
     v = obj.variables
     v.add("__poked__")
     if kind in LABELLED:
+        # set_mapping must copy what it is given
+        given = obj.mapping
+        obj.set_mapping(given)
+        given["__poked__"] = 98
         m = obj.mapping
         m["__poked__"] = 99
         for k in list(m):
